@@ -20,6 +20,10 @@ CLAIMED = {
    text="Kernel-checked theorems over any commutative ring and all sizes: the amplitude specification (multiset expansion permS) equals the textbook Laplace permanent of the explicit submatrix U[t|s] (permR_permS); the model of Naive (_compute_submatrix + permanent, with its n=0 / n-differs special cases) equals it; the SLOS coefficient recursion times prod t! equals it (bunched inputs/outputs included); amplitudes vanish when photon numbers differ; pruning the SLOS state space by any FSMask-style mask (closed under removing a photon) leaves the values of kept states unchanged. Every engine of /repo (Naive, SLOS, SLAP, MPS at full bond dimension, Stepper) is compared on every run with the extracted specification on all output states of sampled (circuit, input) pairs, bulk order, exact mass 1, masks, white-box submatrix and SLOS coefficients.",
    note="All theorems closed under the global context. SLAP, MPS and the native SLOS layer / permanent_cx have no algorithmic model: they are compared with the proved specification only. Full-distribution normalisation for all n is checked exactly per instance (mass = 1 as rationals), not proved.",
    tech="Coq proof (Laplace permanent = multiset expansion = SLOS recursion; mask soundness) + extracted-spec differential correspondence on all engines"),
+ "C17": dict(cat="proof", ref="DESIGN.md §7 C17, Appendix A.5",
+   text="Kernel-checked theorems about a Gallina state machine of RemoteJob (execute_async/execute_sync, status with its consecutive-error counter, cancel, rerun, get_results) whose events are client actions paired with the server's answer to every request they trigger, for ALL finite traces and all states: the repaired code (two one-token patches) refines the specification automaton of the statement; the code as it is refines it on every trace that avoids the two defects, and is refuted otherwise (vm_compute witnesses of length 2 and 7: second creation request on a sent WAITING job; sixth consecutive failure absorbed); final statuses are absorbing and nothing is polled after them; the counter equals the number of failed status requests since the last success over any history; failures 1-4 absorbed when transient, the fifth raises, other HTTP errors raise at once, a success resets; results/cancel/rerun requests are only issued under their guards; a failed job reports the message read with its status. The hand-written model is tied to /repo on every run: the real RemoteJob and RPCHandler run under the `responses` library against a scripted server on every trace of length <= 4 (quick) / 5 (thorough) over a 14-symbol alphabet, every failure run of length <= 8, and random long multi-job traces over the full alphabet; outcome, HTTP requests received and white-box state are compared per step with the extracted model of the code and with the specification.",
+   note="All theorems closed under the global context. Two open findings (known_findings.json: double-send, sixth-failure-absorbed) are re-found on every run.",
+   tech="Coq proof (refinement + invariants by induction over traces) + extracted-model differential correspondence under a scripted HTTP server"),
 }
 REASON_PENDING = "not yet built in this development (see DESIGN.md §10 for the build order); no check is claimed"
 
